@@ -9,7 +9,7 @@
 From Coq Require Import List ZArith NArith Bool Arith.
 From S4.Model Require Import Merge Coord.
 From S4.Gen Require Import CoordTables.
-From S4.Proofs Require Import MergeProofs CoordProofs CoordTablesOk CoordExamples.
+From S4.Proofs Require Import MergeProofs CoordProofs CoordReplayProofs CoordTablesOk CoordExamples.
 Import ListNotations.
 
 (* the regenerated CHANNEL_CAPACITY is within the range the theorems cover *)
@@ -87,6 +87,13 @@ Theorem C06_replay_output : forall cap Ss recvs t s',
   final s' = true /\ printed s' = merge Ss /\ Forall drained (srcs s').
 Proof. exact coord_replay_output. Qed.
 Print Assumptions C06_replay_output.
+
+(* ... and its print events name the sources of [merge Ss], in order *)
+Theorem C06_replay_prints : forall cap Ss recvs t s',
+  well_tagged Ss -> coord_replay cap Ss recvs = RDone t s' ->
+  tprints t = map m_src (merge Ss).
+Proof. exact replay_prints. Qed.
+Print Assumptions C06_replay_prints.
 
 (* isolation (used by C07): a source that fails after k messages (k = 0:
    FileInfo(err), FileSummary) does not disturb the others, under any schedule *)
